@@ -10,6 +10,7 @@ WT=/tmp/wt/try_$slot; H=/tmp/wt/h_$slot; F=/tmp/wt/f_$slot; W=/tmp/wt/w_$slot
 git -C /repo worktree remove --force $WT 2>/dev/null
 git -C /repo worktree add -q --detach $WT HEAD || exit 2
 git -C $WT apply "$patch" || { echo "$id: patch does not apply"; git -C /repo worktree remove --force $WT; exit 3; }
+cp -n /repo/Cargo.lock $WT/Cargo.lock 2>/dev/null
 mkdir -p $H $F $W/work $W/out $W/evidence
 rsync -a --delete --exclude target /verif/harness/ $H/ && sed -i "s|path = \"/repo\"|path = \"$WT\"|" $H/Cargo.toml
 rsync -a --delete --exclude target /verif/featprobe/ $F/ && sed -i "s|path = \"/repo\"|path = \"$WT\"|" $F/Cargo.toml
